@@ -123,3 +123,63 @@ class pick_in_chunk_wrapped:
                      "result[0, 0, 0]._pos[k, a] < loc(block_info, a)[1] + margin(image, block_info, a) - 0.5 for a in range(3)), "
                      "(0, result[0, 0, 0]._pos.shape[0]))",
     }
+
+
+# ---------------------------------------------------------------------------
+# the concrete per-chunk detectors are numerical (scipy filters, labelling): trusted to return picks with one quaternion
+# and one score each; what they return is then followed through the chunk bookkeeping
+for _key in ("acryo.pick._concrete:LoGPicker.pick_in_chunk", "acryo.pick._concrete:DoGPicker.pick_in_chunk",
+             "acryo.pick._concrete:ZNCCTemplateMatcher.pick_in_chunk"):
+    @contract(_key, props=["C20"])
+    class concrete_pick_in_chunk:
+        trusted = True
+        params = dict(self=T.Obj("acryo.pick._base:BasePickerModel", {}))
+        result = _picked
+        ensures = {}
+
+
+def overlap():
+    """ghost: the generic block dask handed to the per-chunk function (starts, stops, depth actually used per axis)"""
+    return S.GHOST["overlap"][-1]
+
+
+_REPLAY_THIN = '''
+import numpy as np
+from acryo.pick import LoGPicker
+def blob(shape, centers, s=2.0):
+    zz, yy, xx = np.indices(shape)
+    img = np.zeros(shape, np.float32)
+    for c in centers:
+        img += np.exp(-((zz - c[0]) ** 2 + (yy - c[1]) ** 2 + (xx - c[2]) ** 2) / (2 * s * s))
+    return img
+ok = True
+for shape, cs in [((5, 48, 48), [(2, 12, 12), (2, 34, 30)]), ((48, 48, 48), [(12, 12, 12), (30, 34, 20)])]:
+    m = LoGPicker(sigma=3.5).pick_molecules(blob(shape, cs), scale=1.0)       # overlap depth 7 > 5 on the first axis
+    got = sorted(map(tuple, np.round(m.pos).astype(int).tolist()))
+    print("image", shape, "particles", cs, "picked at", got)
+    ok = ok and got == sorted(cs)
+print("clause holds natively (picks at the particle positions):", ok)
+print("CONFIRMED" if not ok else "NOT-CONFIRMED"); sys.exit(1 if not ok else 0)
+'''
+
+
+@contract("acryo.pick._base:BasePickerModel.pick_molecules", props=["C20"])
+class pick_molecules:
+    """for an arbitrary chunk of an arbitrary chunking: a pick at local index l of the block dask extended by the overlap
+    depth is reported at (chunk_start + l - depth_used) * scale, i.e. at its index in the whole image in physical units
+    (depth_used: the depth dask actually extended the block by on that axis), with its own rotation and score"""
+    params = dict(self=T.OneOf(T.Obj("acryo.pick._concrete:LoGPicker", dict(_sigma=T.Real(lo=0))),
+                               T.Obj("acryo.pick._concrete:DoGPicker", dict(_sigma_low=T.Real(lo=0), _sigma_high=T.Real(lo=0)))),
+                  image=_IMG, scale=T.Real(lo=0))
+    requires = ["scale > 0", "cls_name(self) != 'LoGPicker' or self._sigma > 0",
+                "cls_name(self) != 'DoGPicker' or (self._sigma_low > 0 and self._sigma_high > self._sigma_low)"]
+    helpers = dict(overlap=overlap, in_core=in_core, cls_name=lambda o: o.cls.name)
+    replay = staticmethod(lambda ob, meta, model: _REPLAY_THIN)
+    ensures = {
+        "global_physical_position":
+            "forall(lambda k: exists(lambda i: all(result._pos[k, a] == (self._ghost_local[i, a] + overlap()['starts'][a] - "
+            "overlap()['depth'][a]) * scale for a in range(3)) and "
+            "result._features.cols['score'][k] == self._ghost_score[i], (0, self._ghost_local.shape[0])), "
+            "(0, result._pos.shape[0]))",
+        "one_feature_row_per_pick": "result._features.n == result._pos.shape[0]",
+    }
